@@ -66,7 +66,8 @@ pub fn judge_execution(program: &Program, ex: &Execution, rules: &[Rule]) -> (Ve
     let mut machinery = Vec::new();
     // a panic out of a fastrace call leaves the program's own bookkeeping behind (the span it was
     // creating does not exist, ...): what follows is a consequence of the panic, not a harness bug
-    let panicked = ex.obs.iter().any(|o| matches!(o.val, crate::interp::ObsVal::Panic(_)));
+    let panicked = ex.obs.iter().any(|o| matches!(o.val, crate::interp::ObsVal::Panic(_)))
+        || matches!(ex.outcome, Outcome::Hang | Outcome::Deadlock);
     if !panicked {
         for e in &m.ill_formed {
             machinery.push(format!("ill-formed program {}: {e}", program.name));
